@@ -91,8 +91,11 @@ def replay(ctx, path):
     cases = os.path.join(ctx.work, "one.ndjson")
     one = {"id": p["id"], "src": p.get("src") or p["source"]}
     for c in rawcorpus.cases():
-        if c["id"] == p["id"] and c.get("variants"):
-            one["variants"] = c["variants"]
+        if c["id"] == p["id"]:
+            for k in ("variants", "pair"):
+                if c.get(k):
+                    one[k] = c[k]
+            one["src"] = c["src"]
     vlib.write_ndjson(cases, [one])
     res = os.path.join(ctx.work, "one.json")
     vlib.run_cmd(ctx, [binp, "run", cases, res, "8"])
